@@ -65,3 +65,6 @@ pub mod io_nostd;
 pub use io_nostd as io;
 
 mod tests;
+
+#[cfg(killingspark_zstd_rs_verif)]
+pub mod verif;
